@@ -400,7 +400,10 @@ impl Check for C13 {
                 } else {
                     let d = Delivery {
                         read: ReadPlan {
-                            chunking: chunking.clone(),
+                            // the noodles-util facade sniffs the format from its first fill_buf()
+                            // window only (known finding of C12): it gets the surviving bytes in
+                            // full reads, so that C13 judges its handling of the truncation
+                            chunking: if kinds::is_util_variant(p.file.kind, v) { Chunking::Full } else { chunking.clone() },
                             ..ReadPlan::cut(k)
                         },
                         wrap: Wrap::Direct,
